@@ -335,15 +335,15 @@ func (s *SpecValidator) validateCircularAncestry(nm string, sch spec.Schema, kno
 		schn = sch.Ref.String()
 	}
 
-	if sch.Ref.String() != "" { // schn is the reference being followed: it must not have been met before
+	if sch.Ref.String() != "" { // schn is the reference being followed: it must not be one of its own ancestors
 		if _, ok := knowns[schn]; ok {
 			ancs = append(ancs, schn)
-		}
-		knowns[schn] = struct{}{}
-
-		if len(ancs) > 0 {
 			return ancs, res
 		}
+		// knowns holds the references followed on the way down to this schema only:
+		// an ancestor shared by two branches (diamond) is not a cycle
+		knowns[schn] = struct{}{}
+		defer delete(knowns, schn)
 	}
 
 	if len(schc.AllOf) > 0 {
